@@ -22,6 +22,7 @@ type EntryCfg struct {
 	TimeoutS  int            `json:"timeout_s,omitempty"`
 	Sched     string         `json:"sched,omitempty"` // "settle" (default) | "all"
 	MaxSwitch int            `json:"max_switch,omitempty"`
+	Preempt   string         `json:"preempt,omitempty"` // "locks": under sched "all", every lock acquisition is a preemption point
 	NoMerge   bool           `json:"no_merge,omitempty"`
 	MapOrder  string         `json:"map_order,omitempty"`
 	Params    map[string]int `json:"params,omitempty"`
@@ -75,31 +76,32 @@ type Engine struct {
 	kf       []KnownFinding
 
 	// config
-	noMerge   bool
-	allocMax  int
-	schedAll  bool
-	maxSwitch int
-	unwind    int
+	noMerge      bool
+	allocMax     int
+	schedAll     bool
+	preemptLocks bool
+	maxSwitch    int
+	unwind       int
 
 	// stats
 	paths, instrs, forks, merges, proved, unsupported, bigAlloc, approxEq, deadlocks int
 	obligations, unknowns, unwindHits, assumeCut, modelHits                          int
-	asserted   map[string]int
-	aborts     map[string]int
-	viol       map[string]*Violation // new violations by kind|label
-	known      map[string]*Violation // known findings seen, by finding id
-	funcs      map[string]bool
-	reach      map[string]bool
-	ndVars     map[string]*Term
-	witnesses  []*Witness
-	evLogs     [][]string
-	curSt      *State
-	pendingEq  *Term
-	pendingKey string
-	pendingSplit []*State
-	initNotes  []string
-	stopped    bool
-	deadline   time.Time
+	asserted                                                                         map[string]int
+	aborts                                                                           map[string]int
+	viol                                                                             map[string]*Violation // new violations by kind|label
+	known                                                                            map[string]*Violation // known findings seen, by finding id
+	funcs                                                                            map[string]bool
+	reach                                                                            map[string]bool
+	ndVars                                                                           map[string]*Term
+	witnesses                                                                        []*Witness
+	evLogs                                                                           [][]string
+	curSt                                                                            *State
+	pendingEq                                                                        *Term
+	pendingKey                                                                       string
+	pendingSplit                                                                     []*State
+	initNotes                                                                        []string
+	stopped                                                                          bool
+	deadline                                                                         time.Time
 }
 
 // ---------------- driver
